@@ -59,6 +59,9 @@ def graph(k):
     d[n("Df")] = df
     d[n("DfN")] = struct([field(1, "default", ST(n("Df"), False)), field(2, "default", L(ST(n("Df"), False))), field(3, "default", M(T("string"), ST(n("Df"), False))),
                           field(4, "optional", ST(n("Df"), True))])
+    # containers of scalar lists: each entry's list is decoded through one recycled slot
+    d[n("Ml")] = struct([field(1, "default", M(T("string"), L(T("i64")))), field(2, "default", M(T("i32"), L(T("i32")))), field(3, "default", L(L(T("i16")))),
+                         field(4, "default", M(T("string"), SET(T("double"))))])
     # only fixed-size fields plus the holder (every size shortcut applies, the retained bytes still count), alone and as elements
     d[n("FxH")] = struct([field(1, "default", T("i32")), field(2, "required", T("i64")), field(3, "default", T("double"))], unk=True)
     d[n("FxHL")] = struct([field(1, "default", L(ST(n("FxH"), False))), field(2, "default", L(ST(n("FxH"), True))), field(3, "default", ST(n("FxH"), False))])
@@ -107,7 +110,7 @@ def run(prop, tier, seed, work):
     defs_path = vlib.write_defs(work, defs)
     # reference-encoded messages (and mutants) for copy 0's types; other copies get the same
     # bytes since their schemas are identical up to names
-    base = ["In", "Rq", "Rq2", "Hd", "Mp", "Top", "En", "Ei", "FxL", "FwL", "FxH", "FxHL", "Nc", "Df", "DfN"]
+    base = ["In", "Rq", "Rq2", "Hd", "Mp", "Top", "En", "Ei", "FxL", "FwL", "FxH", "FxHL", "Nc", "Df", "DfN", "Ml"]
     older = {"FxL": "FwL"}       # reader -> a writer with an older schema of it
     badtypes = ["BX", "BY", "BA", "BB", "Bd"]
     cases = []
@@ -119,6 +122,8 @@ def run(prop, tier, seed, work):
         rest = [x for x in vs if x not in head]
         rng.shuffle(rest)
         vs = (head + rest)[:6]
+        if b == "Ml":
+            vs = (head + [x for x in rest if x[0].endswith(("=5", "=6", "=4"))] + rest)[:8]     # incl. inner lengths 3, 2, 1, 0
         if b == "DfN":
             # nested values equal to their declared defaults: nothing of them is on the wire, the reader's initialiser supplies them
             dd_ = U.default_struct("Df_0", defs)
@@ -202,6 +207,19 @@ def run(prop, tier, seed, work):
         steps.append({"op": "encode", "ty": ty, "v": len(vv) - 1, "byval": False, "buf": {"mode": "rel", "n": 0, "extra": 0}})
         sid = "C07-byval-%s" % b
         scen.append({"sid": sid, "prop": prop, "vals": vv, "steps": steps, "tags": ["byval-sequence"], "dkey": sid})
+    # systematic: a decode that fails inside a nocopy value, then another type's message; the caller then reuses that buffer:
+    # the second object's ordinary strings must not follow it
+    ncbad = [m for m in badmsgs["Nc"] if 8 <= len(m)][:: max(1, len(badmsgs["Nc"]) // 14)]
+    for bi, bad in enumerate(ncbad):
+        k2 = bi % ncopies
+        steps = [{"op": "decode", "ty": "Nc_%d" % k2, "in": bad, "dest": "fresh"},
+                 {"op": "decode", "ty": ["In_%d", "Hd_%d", "Rq2_%d"][bi % 3] % k2, "in": okmsgs[["In", "Hd", "Rq2"][bi % 3]][0], "dest": "fresh"},
+                 {"op": "overwrite", "obj": 1, "byte": 120}, {"op": "recheck", "obj": 1, "after": "overwrite"},
+                 {"op": "decode", "ty": "Nc_%d" % k2, "in": okmsgs["Nc"][0], "dest": "fresh"},
+                 {"op": "decode", "ty": "Mp_%d" % k2, "in": okmsgs["Mp"][0], "dest": "fresh"},
+                 {"op": "overwrite", "obj": 5, "byte": 121}, {"op": "recheck", "obj": 5, "after": "overwrite"}]
+        sid = "C07-ncfail-%d" % bi
+        scen.append({"sid": sid, "prop": prop, "vals": [], "steps": steps, "tags": ["nocopy-failure-then-other-type"], "dkey": sid})
     # systematic: failing decodes of one type that miss DIFFERENT required fields, in every order (what the error names
     # belongs to the call that reports it)
     m1 = [11, 0, 64, 0, 0, 0, 1, 120, 0]            # field 64 only: 1 is missing
